@@ -1,6 +1,7 @@
 package rules
 
 import (
+	"strings"
 	"go/ast"
 	"go/types"
 
@@ -12,8 +13,8 @@ import (
 // the schema loader). Shared by C17.kind and C20.guess.
 func guessRules(R string) RuleFunc {
 	return func(c *core.Ctx) {
-		c.Rule(R, "the literal classifiers never iterate a map (no order dependence); both test `string` before the number predicates (a quoted string may look like a number); and root.typeGuesser.isInteger/isFloat are clones of json.GuessData.IsInteger/IsFloat modulo the accessor spelling")
-		c.Floor(R, 8)
+		c.Rule(R, "the literal classifiers never iterate a map (no order dependence); both test `string` before the number predicates (a quoted string may look like a number); and root.typeGuesser.isInteger/isFloat are clones of json.GuessData.IsInteger/IsFloat modulo the accessor spelling, and isString/isBoolean/isNull/isObject/isArray accept under exactly the same symbolic conditions as their json.GuessData counterparts")
+		c.Floor(R, 13)
 		// 1. no map range in the classifier functions
 		n := 0
 		for _, d := range c.P.FuncDecls() {
@@ -90,6 +91,16 @@ func guessRules(R string) RuleFunc {
 			} else {
 				c.Bad(R, "clone:"+pair[0]+"="+pair[1], c.P.Pos(a.Decl.Pos()), pair[0]+" ≡ "+pair[1], "the two classifiers diverge: "+core.FirstDiff(na, nb))
 			}
+		}
+		// 4. the small predicates: same accept sets
+		norm := func(s string) string {
+			s = strings.ReplaceAll(s, "sel:.data(sel:.bytes(param:g))", "DATA")
+			s = strings.ReplaceAll(s, "load:&g.data", "DATA")
+			return s
+		}
+		inl := []string{"(bytes.Bytes).Len", "(bytes.Bytes).FirstByte", "(bytes.Bytes).LastByte", "(bytes.Bytes).String"}
+		for _, pair := range [][2]string{{"isString", "IsString"}, {"isBoolean", "IsBoolean"}, {"isNull", "IsNull"}, {"isObject", "IsObject"}, {"isArray", "IsArray"}} {
+			predEquiv(c, R, "(*root.typeGuesser)."+pair[0], "(json.GuessData)."+pair[1], inl, norm, "GuessSchemaType and the scanner-side classifier json.Guess disagree on some literal")
 		}
 	}
 }
